@@ -11,6 +11,8 @@
  R5 classes    every error class named in the property has severity >= ERROR, is not switchable by
                -w/-i, and has a reachable report site
  R6 lookups    resolver lookups are tested before use and the null edge reports / fails   (c04_lookup)
+ R7 flags      a flag that decides a diagnostic inside a loop is re-assigned in that loop
+ R8 nesting    every nested statement is resolved unless an error was already reported for its guard
 """
 from engines import init_rows, str_of, known_facts, calls_in, peval
 from ir import walk, strip, expr_str, access_path
@@ -29,7 +31,9 @@ EXPLANATION = (
     "(R3) exit constants of EXPRESS_fail/EXPRESS_succeed/success hooks, EXIT/DUMP handling; (R4) exactly one main "
     "for the tools, one EXPRESSinit_init per tool, backends contain no exit(0); (R5) every error class named in the "
     "property has an ERROR-or-worse entry in LibErrors that -w/-i cannot switch and at least one call site reachable "
-    "from EXPRESSparse/EXPRESSresolve; (R6) results of resolver lookups are null-tested before use. "
+    "from EXPRESSparse/EXPRESSresolve; (R6) results of resolver lookups are null-tested before use; (R8) in the statement "
+    "resolver each call that resolves a nested statement (list, case item) is unconditional or guarded by an idiom that implies an "
+    "error was already reported (the guarding expression failed to resolve; no label of a labelled case item resolved). "
     "Not decided: that each malformed schema reaches its detection branch; agreement on warnings.")
 
 STAGES = ["EXPRESSparse", "EXPRESSresolve"]
@@ -514,6 +518,79 @@ def r7(prog, res):
     res.info["r7_functions_scanned"] = nf
 
 
+NESTED_RESOLVERS = {"STMTresolve", "STMTlist_resolve", "CASE_ITresolve"}
+
+
+def r8(prog, res):
+    """Every nested statement is resolved unless an error was already reported for what guards it: in the statement
+    resolver a call that resolves a nested statement (list) is unconditional, or sits under `!is_resolve_failed(E)` for an E
+    resolved just before, or under `<count of labels that resolved> || <the label list is empty>`."""
+    import re
+    from engines import enclosing_conditions
+    n = 0
+    for name in ("STMTresolve", "CASE_ITresolve", "STMTlist_resolve"):
+        f = prog.one(name, "express/resolve.c")
+        if f is None:
+            res.broke("anchor vanished: %s in resolve.c" % name)
+            continue
+        for c in f.calls():
+            if (c.get("fn") or "") not in NESTED_RESOLVERS:
+                continue
+            conds = []
+            for cn, br in enclosing_conditions(f, c):
+                # loop heads and the list macros' own guards are not skips
+                if all((x.get("m") or "").startswith("LISTdo") or (x.get("mo") or "").startswith("LISTdo") for x in walk(cn)):
+                    continue
+                par = [a for a in f.ancestors(c) if a["k"] in ("While", "For") and a["ch"][0 if a["k"] == "While" else 1] is cn]
+                if par:
+                    continue
+                conds.append((cn, br))
+            n += 1
+            arg = expr_str(c["ch"][0])[:40]
+            key = "R8|src/express/resolve.c|%s|%s(%s)" % (name, c["fn"], arg)
+            if not conds:
+                res.add("R8.nested_statements_resolved", key, f.where(c), True, "%s(%s) is resolved unconditionally" % (c["fn"], arg))
+                continue
+            ok = True
+            why = []
+            for cn, br in conds:
+                t = re.sub(r"\s+", "", expr_str(cn))
+                good = False
+                m = re.fullmatch(r"!?\(?!(.+?)->symbol(?:\.resolved)?.*", t)
+                if br == "T" and (t.startswith("!is_resolve_failed(") or "resolved&" in t or re.match(r"!\(?.*->symbol", t)):
+                    # E must have been handed to EXPresolve before, in the same arm
+                    # EXPresolve(e, ..) expands to `if (!is_resolved(e)) EXP_resolve(e, ..)`: the expansion's test dominates what follows
+                    exprs = [x for x in f.calls() if (x.get("fn") or "") in ("EXPresolve", "EXP_resolve") and
+                             (x.get("m") == "EXPresolve" or x.get("mo") == "EXPresolve" or (x.get("fn") or "") == "EXPresolve")]
+                    exprs = [x for x in exprs if any(a["k"] == "If" and f.cfg.dominates(f.first_pos(a["ch"][0]), f.cfg.locate(c))
+                                                     for a in f.ancestors(x)) or f.cfg.dominates(f.cfg.locate(x), f.cfg.locate(c))]
+                    tgt = re.sub(r"\s+", "", expr_str(exprs[-1]["ch"][0])) if exprs else None
+                    good = any(re.sub(r"\s+", "", expr_str(x["ch"][0])) in t for x in exprs)
+                    why.append("skipped only when resolving %s failed (reported there)" % (tgt or "?"))
+                if br == "T" and t == re.sub(r"\s+", "", expr_str(c["ch"][0])):
+                    good = True
+                    why.append("skipped only when there is no such nested statement (the field is null)")
+                mm = re.fullmatch(r"(\w+)\|\|!(.+)", t)
+                if br == "T" and mm:
+                    cnt, lst = mm.group(1), mm.group(2)
+                    incs = [x for x in f.walk() if x["k"] == "Unary" and x.get("op") in ("post++", "pre++") and strip(x["ch"][0]).get("n") == cnt]
+                    okc = False
+                    for i in incs:
+                        g = [expr_str(a) for a, b in enclosing_conditions(f, i) if b == "T"]
+                        loops = [a for a in f.ancestors(i) if a["k"] in ("For", "While")]
+                        okc = any("Type_Bad" in x and "!=" in x for x in g) and bool(loops)
+                    lists = [x for x in f.walk() if x["k"] == "Var" and x["n"].startswith("_") and x.get("ch") and
+                             re.sub(r"\s+", "", expr_str(x["ch"][0])) == lst]
+                    good = okc and bool(lists)
+                    why.append("skipped only when the item has labels and none of them resolved (each failure was reported); an item without labels is resolved")
+                if not good:
+                    ok = False
+                    why = ["guard `%s` lets the nested statement go unresolved without any error having been reported (e.g. an OTHERWISE item has no labels)" % expr_str(cn)]
+                    break
+            res.add("R8.nested_statements_resolved", key, f.where(c), ok, "; ".join(why))
+    res.floor("R8", "nested-statement resolutions in the statement resolver", n, 8)
+
+
 def run(prog, res, tier):
     t = c20.table(prog, res)
     if t is None:
@@ -526,6 +603,7 @@ def run(prog, res, tier):
     if E is not None:
         r5(prog, res, tab, E)
     r7(prog, res)
+    r8(prog, res)
     try:
         from rules import c04_lookup
         c04_lookup.run(prog, res, tier)
